@@ -982,6 +982,22 @@ pub const C06_FIXTURES: &[&str] = &[
     "crates/lib/mimium-test/tests/mmm/if_state.mmm",
     "crates/lib/mimium-test/tests/mmm/mem.mmm",
     "crates/lib/mimium-test/tests/mmm/global_state.mmm",
+    // shipped examples built on the standard library (oscillators, filters, envelopes, reverbs,
+    // delays, the mini-notation sequencer): what a live coder actually runs. Each was vetted
+    // fault-free first (12 swap schedules on vm and wasm_p3); examples that keep signal state in
+    // closures made by `main` (cascadeosc.mmm) or need a device plugin are left out.
+    "examples/0b5vr.mmm",
+    "examples/biquad.mmm",
+    "examples/compressor.mmm",
+    "examples/fbdelay_mod.mmm",
+    "examples/fmpiano.mmm",
+    "examples/getnow.mmm",
+    "examples/jcrev.mmm",
+    "examples/livecoding_demo.mmm",
+    "examples/rain.mmm",
+    "examples/robot.mmm",
+    "examples/sinewave.mmm",
+    "examples/uzulang.mmm",
 ];
 
 pub fn repo_root() -> String {
